@@ -24,7 +24,8 @@ ASSUMPTIONS = [
 ]
 TIMEOUT = {'quick': 1500, 'thorough': 10800}
 WORKERS = 10
-ARRANGEMENTS = ('same-dir', 'subdirs-I', 'other-cwd-relative', 'absolute', 'include-twice')
+ARRANGEMENTS = ('same-dir', 'subdirs-I', 'other-cwd-relative', 'absolute', 'include-twice', 'dotdot-include',
+                'dot-slash-include', 'absolute-include')
 
 
 def shards(ctx):
@@ -125,16 +126,28 @@ def run_case(acc, audit, wd, idx, sch, rng, arrangement, want_cpp, seed):
     open(os.path.join(out2, '__init__.py'), 'w').close()
     paths = {}
     incdirs = []
+    subdir = {}
     for i, (fn, part, incs) in enumerate(files):
-        sub = 'dir%d' % (i % 2) if arrangement == 'subdirs-I' else ''
+        subdir[fn] = ('dir%d' % (i % 2) if arrangement == 'subdirs-I' else
+                      'd%d' % i if arrangement == 'dotdot-include' else '')
+    for i, (fn, part, incs) in enumerate(files):
+        sub = subdir[fn]
         dd = os.path.join(split_dir, 'src', sub)
         if not os.path.isdir(dd):
             os.makedirs(dd)
-        if sub and dd not in incdirs:
+        if arrangement == 'subdirs-I' and dd not in incdirs:
             incdirs.append(dd)
         paths[fn] = os.path.join(dd, fn)
+        if arrangement == 'dotdot-include':
+            pre = lambda f: '../%s/%s' % (subdir[f], f)                      # noqa
+        elif arrangement == 'dot-slash-include':
+            pre = lambda f: './' + f                                           # noqa
+        elif arrangement == 'absolute-include':
+            pre = lambda f: os.path.join(split_dir, 'src', subdir[f], f)       # noqa
+        else:
+            pre = lambda f: f                                                  # noqa
         with open(paths[fn], 'w') as f:
-            f.write(file_text(sch, part, incs))
+            f.write(file_text(sch, part, incs, pre))
     args = ['--quiet', '--python_out', out2]
     if want_cpp:
         args += ['--cpp_out', out2, '--cpp_full_out', out2]
@@ -161,7 +174,7 @@ def run_case(acc, audit, wd, idx, sch, rng, arrangement, want_cpp, seed):
 
     def witness(**kw):
         wit = {'seed': seed, 'arrangement': arrangement, 'single_file': sch.to_prophy()[:5000],
-               'files': {fn: file_text(sch, part, incs) for fn, part, incs in files}, 'args': args + inputs}
+               'files': {fn: open(paths[fn]).read() for fn, part, incs in files}, 'args': args + inputs}
         wit.update(kw)
         return wit
     if exc is not None:
